@@ -430,37 +430,130 @@ Proof.
   (* float32 -> uint8 / uint16: work type float32 *)
   1,2: pose proof (fconv_Val 24 128 24 128 _ _ _ ltac:(lia) ltac:(lia) ltac:(lia) x Hv Hf) as (Hv0 & Hf0 & Hr0);
        rewrite <- (rhe_Q_Qeq _ _ (SF2Q_eq_of_R x _ Hr0));
-       apply (round_clip_cast 24 128 _ _ ltac:(vm_compute; discriminate) ltac:(lia) F32 eq_refl) with (hi' := imax _);
+       match goal with |- cast ?o _ = _ =>
+       apply (round_clip_cast 24 128 _ _ ltac:(vm_compute; discriminate) ltac:(lia) F32 eq_refl) with (hi' := imax o);
        [ reflexivity | exact Hv0 | exact Hf0
-       | apply hi_bound_exact; [vm_compute; discriminate | vm_compute; reflexivity] | lia | lia ].
+       | apply (hi_bound_exact _ _ _ _); [vm_compute; discriminate | vm_compute; reflexivity] | lia | lia ] end.
   (* float32 -> uint32: work type float64 *)
   1: pose proof (fconv_Val 24 128 53 1024 _ _ _ ltac:(lia) ltac:(vm_compute; discriminate) ltac:(lia) x Hv Hf) as (Hv0 & Hf0 & Hr0);
      rewrite <- (rhe_Q_Qeq _ _ (SF2Q_eq_of_R x _ Hr0));
-     apply (round_clip_cast 53 1024 _ _ ltac:(vm_compute; discriminate) ltac:(lia) F64 eq_refl) with (hi' := imax _);
+     match goal with |- cast ?o _ = _ =>
+     apply (round_clip_cast 53 1024 _ _ ltac:(vm_compute; discriminate) ltac:(lia) F64 eq_refl) with (hi' := imax o);
      [ reflexivity | exact Hv0 | exact Hf0
-     | apply hi_bound_exact; [vm_compute; discriminate | vm_compute; reflexivity] | lia | lia ].
+     | apply (hi_bound_exact _ _ _ _); [vm_compute; discriminate | vm_compute; reflexivity] | lia | lia ] end.
   (* float32 -> uint64 *)
   1: pose proof (fconv_Val 24 128 53 1024 _ _ _ ltac:(lia) ltac:(vm_compute; discriminate) ltac:(lia) x Hv Hf) as (Hv0 & Hf0 & Hr0);
      pose proof (SF2Q_eq_of_R x _ Hr0) as Hq;
      rewrite <- (rhe_Q_Qeq _ _ Hq);
      apply (round_clip_cast 53 1024 _ _ ltac:(vm_compute; discriminate) ltac:(lia) F64 eq_refl) with (hi' := two64z);
      [ reflexivity | exact Hv0 | exact Hf0 | exact hi_bound_u64 | vm_compute; discriminate
-     | assert (Hb : rhe_Q (SF2Q (fconv b64 x)) < two64z)
-         by (apply rhe_below_two64; [exact Hv0 | exact Hf0 | rewrite Hq; apply Hlt; reflexivity]);
+     | match goal with |- Z.min (Z.max ?n 0) _ <= _ => assert (Hb : n < two64z)
+         by (apply rhe_below_two64; [exact Hv0 | exact Hf0 | rewrite Hq; apply Hlt; reflexivity]) end;
        unfold two64z in *; dt_unfold; lia ].
   (* float64 -> uint8 / uint16 / uint32 *)
   1,2,3: pose proof (fconv_Val 53 1024 53 1024 _ _ _ ltac:(lia) ltac:(lia) ltac:(lia) x Hv Hf) as (Hv0 & Hf0 & Hr0);
      rewrite <- (rhe_Q_Qeq _ _ (SF2Q_eq_of_R x _ Hr0));
-     apply (round_clip_cast 53 1024 _ _ ltac:(vm_compute; discriminate) ltac:(lia) F64 eq_refl) with (hi' := imax _);
+     match goal with |- cast ?o _ = _ =>
+     apply (round_clip_cast 53 1024 _ _ ltac:(vm_compute; discriminate) ltac:(lia) F64 eq_refl) with (hi' := imax o);
      [ reflexivity | exact Hv0 | exact Hf0
-     | apply hi_bound_exact; [vm_compute; discriminate | vm_compute; reflexivity] | lia | lia ].
+     | apply (hi_bound_exact _ _ _ _); [vm_compute; discriminate | vm_compute; reflexivity] | lia | lia ] end.
   (* float64 -> uint64 *)
   pose proof (fconv_Val 53 1024 53 1024 _ _ _ ltac:(lia) ltac:(lia) ltac:(lia) x Hv Hf) as (Hv0 & Hf0 & Hr0).
   pose proof (SF2Q_eq_of_R x _ Hr0) as Hq.
   rewrite <- (rhe_Q_Qeq _ _ Hq).
   apply (round_clip_cast 53 1024 _ _ ltac:(vm_compute; discriminate) ltac:(lia) F64 eq_refl) with (hi' := two64z);
      [ reflexivity | exact Hv0 | exact Hf0 | exact hi_bound_u64 | vm_compute; discriminate | ].
-  assert (Hb : rhe_Q (SF2Q (fconv b64 x)) < two64z)
-    by (apply rhe_below_two64; [exact Hv0 | exact Hf0 | rewrite Hq; apply Hlt; reflexivity]).
+  match goal with |- Z.min (Z.max ?n 0) _ <= _ => assert (Hb : n < two64z)
+    by (apply rhe_below_two64; [exact Hv0 | exact Hf0 | rewrite Hq; apply Hlt; reflexivity]) end.
   unfold two64z in *; dt_unfold; lia.
 Qed.
+
+(* non-vacuity: 2.5 -> 2, 255.5 -> 255 (saturated), 2^64 - 2048 -> itself *)
+Example float_to_int_example :
+  let x := of_bits b64 4612811918334230528 in      (* 2.5 *)
+  is_int F64 = false /\ is_uint U8 = true /\ valid_binary 53 1024 x = true /\ is_finite x = true /\
+  uint64_top_guard F64 U8 (NF x) = true /\ convert_scalar F64 U8 (NF x) = NI 2 /\
+  uint64_top_guard F64 U64 (NF (of_bits b64 4895412794951729151)) = true /\
+  convert_scalar F64 U64 (NF (of_bits b64 4895412794951729151)) = NI (2 ^ 64 - 2048).
+Proof. repeat split; vm_compute; reflexivity. Qed.
+
+Lemma rhe_Q_ge : forall z q, (inject_Z z <= q)%Q -> z <= rhe_Q q.
+Proof.
+  intros z [n d] H. unfold Qle, inject_Z in H. cbn [Qnum Qden] in H.
+  unfold rhe_Q. cbn [Qnum Qden].
+  assert (z <= n / Zpos d) by (apply Z.div_le_lower_bound; lia).
+  destruct (2 * (n mod Zpos d) ?= Zpos d); try lia. destruct (Z.even (n / Zpos d)); lia.
+Qed.
+
+(* the failing region is exactly the guard's complement: every finite float at
+   or above 2^64 is converted to 0, where the specification demands 2^64-1 *)
+Theorem uint64_top_everywhere : forall i x,
+  is_int i = false ->
+  valid_binary (f_prec (fmt_of i)) (f_emax (fmt_of i)) x = true -> is_finite x = true ->
+  uint64_top_guard i U64 (NF x) = false ->
+  convert_scalar i U64 (NF x) = NI 0 /\ nearest_sat U64 (SF2Q x) = NI (2 ^ 64 - 1).
+Proof.
+  intros i x Hi Hv Hf Hg.
+  assert (Hge : (inject_Z two64z <= SF2Q x)%Q).
+  { unfold uint64_top_guard in Hg. rewrite Hi in Hg. cbn [negb dtype_eqb andb num2Q] in Hg.
+    apply negb_false_iff in Hg. apply Qle_bool_iff. exact Hg. }
+  split.
+  2:{ unfold nearest_sat. cbn [is_int]. f_equal. pose proof (rhe_Q_ge _ _ Hge) as H.
+      unfold clamp, two64z in *. dt_unfold. lia. }
+  unfold convert_scalar, work_value, round_flag, clip_flag. rewrite Hi. cbn [is_int negb andb orb].
+  assert (Hcc : can_cast_safe i U64 = false) by (destruct i; try discriminate Hi; reflexivity).
+  assert (Hw : promote i U64 = F64) by (destruct i; try discriminate Hi; reflexivity).
+  rewrite Hcc, Hw. cbn [negb cast is_int rint_num clip_num fmt_of].
+  assert (Hy0 : Val 53 1024 (fconv b64 x) (SF2R radix2 x)).
+  { destruct i; try discriminate Hi; cbn [fmt_of f_prec f_emax] in Hv.
+    - apply (fconv_Val 24 128 53 1024 _ _ _ ltac:(lia) ltac:(vm_compute; discriminate) ltac:(lia) x Hv Hf).
+    - apply (fconv_Val 53 1024 53 1024 _ _ _ ltac:(lia) ltac:(lia) ltac:(lia) x Hv Hf). }
+  destruct Hy0 as (Hv0 & Hf0 & Hr0).
+  pose proof (SF2Q_eq_of_R x _ Hr0) as Hq.
+  pose proof (rint_Val 53 1024 _ _ ltac:(vm_compute; discriminate) _ Hv0 Hf0) as Hy.
+  assert (Hlo : Val 53 1024 (of_Z b64 (imin U64)) (IZR 0)).
+  { apply (hi_bound_exact 53 1024 _ _). vm_compute; discriminate. vm_compute; reflexivity. }
+  destruct (clip_Val 53 1024 _ _ _ _ _ _ Hy Hlo hi_bound_u64) as [y' [Ey Hy']].
+  change {| f_prec := 53; f_emax := 1024 |} with b64 in *.
+  rewrite Ey. cbn [cast is_int]. f_equal.
+  assert (Hn : two64z <= rhe_Q (SF2Q (fconv b64 x))) by (apply rhe_Q_ge; rewrite Hq; exact Hge).
+  replace (Z.min (Z.max (rhe_Q (SF2Q (fconv b64 x))) 0) two64z) with two64z in Hy'
+    by (unfold two64z in *; lia).
+  pose proof (Val_trunc 53 1024 _ _ Hy') as Ht.
+  unfold c_cast. rewrite Ht. vm_compute. reflexivity.
+Qed.
+
+(* C11 (3): float64 -> float32 is Flocq's rounding to nearest, ties to even,
+   on the float32 format -- with overflow to infinity, which is where it
+   departs from "saturating" (float32_overflow_refuted). *)
+Theorem to_float32_nearest : forall x,
+  valid_binary 53 1024 x = true -> is_finite x = true ->
+  let r := round radix2 (SpecFloat.fexp 24 128) ZnearestE (SF2R radix2 x) in
+  if Rlt_bool (Rabs r) (bpow radix2 128)
+  then exists y, convert_scalar F64 F32 (NF x) = NF y /\ Val 24 128 y r
+  else convert_scalar F64 F32 (NF x) = NF (S754_infinity (sf_sign x)).
+Proof.
+  intros x Hv Hf r.
+  assert (E : convert_scalar F64 F32 (NF x) = NF (fconv b32 x)) by reflexivity.
+  rewrite E. destruct x as [s|s| |s m e]; try discriminate Hf.
+  - unfold r. cbn [SF2R]. rewrite round_0 by auto with typeclass_instances.
+    rewrite Rabs_R0, Rlt_bool_true by apply bpow_gt_0.
+    eexists. split. reflexivity. split; [reflexivity | split; reflexivity].
+  - cbn [fconv]. unfold fnorm. cbn [f_prec f_emax b32].
+    rewrite (binary_normalize_equiv 24 128 _ _).
+    generalize (binary_normalize_correct 24 128 _ _ mode_NE (cond_Zopp s (Zpos m)) e false).
+    cbv zeta. fold r. change (round_mode mode_NE) with ZnearestE.
+    change (round radix2 (fexp 24 128) ZnearestE (F2R (Float radix2 (cond_Zopp s (Zpos m)) e))) with r.
+    destruct (Rlt_bool (Rabs r) (bpow radix2 128)).
+    + intros (H1 & H2 & _). eexists. split. reflexivity.
+      rewrite <- H1. apply B_Val. exact H2.
+    + intros H. rewrite H. unfold binary_overflow. cbn [overflow_to_inf]. do 2 f_equal.
+      cbn [sf_sign]. destruct s; cbn [cond_Zopp].
+      * apply Rlt_bool_true. apply F2R_lt_0. reflexivity.
+      * apply Rlt_bool_false. apply F2R_ge_0. cbn. lia.
+Qed.
+
+Example to_float32_example :
+  valid_binary 53 1024 (of_bits b64 4602678819172646912) = true /\
+  convert_scalar F64 F32 (NF (of_bits b64 4602678819172646912)) = NF (of_bits b32 1056964608).
+Proof. split; vm_compute; reflexivity. Qed.
